@@ -137,25 +137,25 @@ CHECKS = {
 }
 # strata added to the ties after the hunting rounds (appended to level_claimed.text; DESIGN.md 0.2 / 0.8 have the full list)
 EXTRA = {
- 'C01': ' Later strata: wrap of floats beyond 2^62 scaled, complex64 carriers, tiny complex components, Decimal scalars and lists, object ndarrays mixing ints and floats, a real value written by index into a complex array.',
+ 'C01': ' Later strata: wrap of floats beyond 2^62 scaled, complex64 carriers, tiny complex components, Decimal scalars and lists, object ndarrays mixing ints and floats, a real value written by index into a complex array. Round-3 strata: np.longdouble carriers with 64-bit significands (scalar, 0-d, 1-element array, list); a complex value written by index into a real array; decimal strings in exponent notation.',
  'C02': ' Later: theorem C02_saturate_side_float_any_width (words to 960 bits); program operations like= + scale / bias and set_best_sizes(); scaled objects with integer scale / bias at the int64 / uint64 edge; float scalars, lists and arrays saturating in words of 53..70 bits (value upper + 1 LSB, saturating element after an in-range one), Spec only.',
  'C03': ' Later strata: dot / prod / cumsum and sums of 62..63-bit words into registers and into their optimal word beyond 64 bits (exact oracle and Reduce model); + - * / sum / max of scalar, indexed and array operands through out= / op_out into narrow and 64..128-bit wrap registers with flags (Spec and arithmetic model), sums of more than 53 bits into registers with fewer fraction bits (Spec), 64..128-bit sources copied into core words (Spec and conversion model).',
  'C04': ' Later strata: 54..63-bit integers into formats with negative n_frac (flags, callbacks, model); the inaccuracy flag through -x +x abs np.negative np.abs << >>; complex writes.',
- 'C07': ' Later strata: the value method (op_method=repr) on operands built from integer values, forced integer formats.',
+ 'C07': ' Later strata: the value method (op_method=repr) on operands built from integer values, forced integer formats. Round-3 strata: product trees of integer-valued leaves with n_frac = -1 by the value method; operations while a class-wide template is installed.',
  'C08': ' Later strata: the constant under op_input_size=same is the number quantized under the operand\'s modes; NumPy numbers on the left.',
- 'C09': ' Later strata: x / y into an imposed format (sizing policies, out=, plain divisor; model opcode 45), operand formats whose integer bits do not overlap, mixed-sign operands of 54..63 aligned bits.',
- 'C10': ' Later strata: complex sources through every route into objects created with and without a value.',
- 'C11': ' Later strata: every prefix the configuration accepts (and none) rendered and parsed back; NumPy string arrays; 2-D renderings.',
- 'C12': ' Later strata: fxp_sum(dtype=) (utils.get_sizes_from_dtype) with x.dtype and every spelling; the notation switched on the object.',
- 'C13': ' Later: theorems C13_arrays_and_or_xor / C13_arrays_not / C13_arrays_pairing (arrays of any length, any word) and the array model (opcode 61); arrays of codes on either or both sides, also as transposed 2-D views, scalar & array, De Morgan on arrays, NumPy masks on the left.',
- 'C14': ' Later strata: NumPy integer shift counts; the value views real / imag and the array-ness of val after a shift.',
- 'C15': ' Later: C15_sum_exact / cumsum / prod / dot / trace hold for EVERY word length (Python-integer accumulation from 64 result bits on, fix aaa3394, modelled); theorem C15_cumprod_exact (+ C15_cumprod_entry_value) and the cumprod model; clip with float / one-sided / narrow NumPy / fixed-point / keyword bounds; tuples of axes; trace offsets on non-square matrices.',
- 'C16': ' Later strata: the left object reached through four histories, array_op_method=raw, numbers on the left (Python and NumPy), the six NumPy comparison functions called by name.',
- 'C17': ' Later strata: narrow NumPy carriers, fixed-point values as carriers, like= with scale= / bias=, raw writes on scaled objects, and a scaled object as first / second operand of + - * or as the out= target (it counts by the value it reads back; Spec only).',
- 'C18': ' Later strata: lists of wide integers, the value buffer after an indexed write, 2-D renderings of wide arrays.',
+ 'C09': ' Later strata: x / y into an imposed format (sizing policies, out=, plain divisor; model opcode 45), operand formats whose integer bits do not overlap, mixed-sign operands of 54..63 aligned bits. Round-3: the value method also with operand words beyond 53 bits (// and % only; Div.div_repr follows the switch to the integer-code method).',
+ 'C10': ' Later strata: complex sources through every route into objects created with and without a value. Round-3: source objects whose value type came from a list of NumPy uint64 scalars; indexed assignment into a destination that reached its format by an in-place resize.',
+ 'C11': ' Later strata: every prefix the configuration accepts (and none) rendered and parsed back; NumPy string arrays; 2-D renderings. Round-3: binary strings rendered with the point fed back with raw=True (set_val, constructor, from_bin).',
+ 'C12': ' Later strata: fxp_sum(dtype=) (utils.get_sizes_from_dtype) with x.dtype and every spelling; the notation switched on the object. Round-3: constructing with a real value and a complex dtype string reproduces the complex format.',
+ 'C13': ' Later: theorems C13_arrays_and_or_xor / C13_arrays_not / C13_arrays_pairing (arrays of any length, any word) and the array model (opcode 61); arrays of codes on either or both sides, also as transposed 2-D views, scalar & array, De Morgan on arrays, NumPy masks on the left. Round-3: in-place update of one element (x[0] ^= 1) on arrays of every listed word length.',
+ 'C14': ' Later strata: NumPy integer shift counts; the value views real / imag and the array-ness of val after a shift. Round-3: C14_lshift_expand holds for every word length and count (exact bit count, Python integers from 64 bits on); C14_lshift_zero_keeps_format.',
+ 'C15': ' Later: C15_sum_exact / cumsum / prod / dot / trace hold for EVERY word length (Python-integer accumulation from 64 result bits on, fix aaa3394, modelled); theorem C15_cumprod_exact (+ C15_cumprod_entry_value) and the cumprod model; clip with float / one-sided / narrow NumPy / fixed-point / keyword bounds; tuples of axes; trace offsets on non-square matrices. Round-3: the accumulating reductions by the value method on integer-valued elements with a negative fraction length; clip with fixed-point bounds on the value path.',
+ 'C16': ' Later strata: the left object reached through four histories, array_op_method=raw, numbers on the left (Python and NumPy), the six NumPy comparison functions called by name. Round-3: the comparison functions by name under both settings of array_op_method.',
+ 'C17': ' Later strata: narrow NumPy carriers, fixed-point values as carriers, like= with scale= / bias=, raw writes on scaled objects, and a scaled object as first / second operand of + - * or as the out= target (it counts by the value it reads back; Spec only). Round-3: routes equal() and like(), NumPy-scalar scale / bias, lists of NumPy uint64 scalars, complex values into scaled objects.',
+ 'C18': ' Later strata: lists of wide integers, the value buffer after an indexed write, 2-D renderings of wide arrays. Round-3: the shift operators on wide words (scalars and arrays, codes at and next to powers of two).',
  'C06': ' Later: theorem C06_best_sizes_minimal (+ C06_code_is_exact): with both sizes inferred and below the cap, arrays of any length get the least fraction length exact for every element and the least word holding every code.',
  'C19': ' Later strata: both operands configured with a larger n_word_max; integers into negative n_frac (Spec and model), operands obtained by indexing, the value method on integer-valued operands whose words add up to 62..66 bits.',
- 'C20': ' Later strata: 19 container kinds compared deeply before and after three store routes; T / flatten / ravel / fxp_like among the 17 routes.',
+ 'C20': ' Later strata: 19 container kinds compared deeply before and after three store routes; T / flatten / ravel / fxp_like among the 17 routes. Round-3: the value view x.real after a write through a view.',
 }
 NA_REASON = 'not claimed'
 def main():
